@@ -1,6 +1,654 @@
 import EpsicModel.Text
-/-! # C19 — text output of values parses back to the same value -/
+/-! # C19 — text output of values parses back to the same value
+
+`Epsic.Text` models `std::istream` over a string and the extractors of `Vector.h`, `Estimate.h`,
+`Conventions.C` (and `std::complex`).  Theorems (core Lean, no Mathlib):
+
+* **round trips, for every value and every nesting**: `estimate_roundtrip`, `complex_roundtrip`,
+  `vector_roundtrip` (generic in the element type, by induction on the number of elements), instantiated
+  for `Vector<N,double>`, `Vector<N,Estimate>`, `Vector<N,complex>`; the number leaf is discharged by
+  `printed_numOK`: every text of the shape the stream prints (`[-]digits[.digits][e±digits]`) is scanned
+  back whole by the model of `num_get`, whatever follows it among `, ) +`.
+  What remains a hypothesis: that text denotes a finite double (`overflows = false`), and that 17
+  significant digits identify a double (a fact about `strtod`/`printf`, validated on the implementation).
+* **a failed estimate extraction leaves the destination unchanged**, for every input text.
+* **every documented spelling** of a convention maps to its enumerator; a numeric basis code outside
+  `0..2` and a hand/argument code other than `±1` set the fail state, for every input text.
+* the fail state is sticky through every primitive. -/
+set_option linter.unusedSimpArgs false
+set_option linter.unusedVariables false
 namespace Epsic.C19
 open Epsic Epsic.Text
+
+def adv (s : IS) (x rest : List Char) : IS := { s with before := x.reverse ++ s.before, buf := rest }
+theorem advance_eq (s : IS) (x rest : List Char) (h : s.buf = x ++ rest) : s.advance x.length = adv s x rest := by
+  simp [IS.advance, adv, h]
+@[simp] theorem good_adv (s : IS) (x rest : List Char) : (adv s x rest).good = s.good := rfl
+@[simp] theorem buf_adv (s : IS) (x rest : List Char) : (adv s x rest).buf = rest := rfl
+@[simp] theorem failed_adv (s : IS) (x rest : List Char) : (adv s x rest).failed = s.failed := rfl
+theorem adv_adv (s : IS) (x y r1 r2 : List Char) : adv (adv s x r1) y r2 = adv s (x ++ y) r2 := by
+  simp [adv]
+theorem good_not_failed (s : IS) (h : s.good = true) : s.failed = false := by
+  simp [IS.good, IS.failed] at *; simp [h]
+theorem sentry_ok (s : IS) (c : Char) (r : List Char) (hg : s.good = true) (hb : s.buf = c :: r) (hc : isSpace c = false) :
+    sentry true s = (true, s) := by
+  simp [sentry, hg, hb, hc, IS.advance]
+  cases s; simp_all
+theorem sentry_noskip (s : IS) (hg : s.good = true) : sentry false s = (true, s) := by
+  simp [sentry, hg]
+theorem readChar_ok (s : IS) (old c : Char) (rest : List Char) (hg : s.good = true) (hb : s.buf = c :: rest)
+    (hc : isSpace c = false) : readChar old s = (c, adv s [c] rest) := by
+  simp [readChar, sentry_ok s c rest hg hb hc, hb, IS.advance, adv]
+theorem expect_ok (s : IS) (c : Char) (rest : List Char) (hg : s.good = true) (hb : s.buf = c :: rest) :
+    expect c s = (true, adv s [c] rest) := by
+  simp [expect, peek, getc, sentry_noskip s hg, hb, IS.advance, adv]
+structure NumOK (l rest : List Char) : Prop where
+  nonspace : ∃ c l', l = c :: l' ∧ isSpace c = false
+  scan : scanFloat (l ++ rest) = (l, rest)
+  valid : validFloat l = true
+  finite : overflows l = false
+theorem extractFloat_ok (s : IS) (old l rest : List Char) (hg : s.good = true) (hb : s.buf = l ++ rest) (hn : NumOK l rest)
+    (hr : rest ≠ []) : extractFloat old s = (l, adv s l rest) := by
+  obtain ⟨c, l', hl, hc⟩ := hn.nonspace
+  have hb' : s.buf = c :: (l' ++ rest) := by rw [hb, hl]; rfl
+  have hre : rest.isEmpty = false := by cases rest <;> simp_all
+  have hg' : s.eof = false := by simp [IS.good] at hg; simp [hg]
+  unfold extractFloat
+  rw [sentry_ok s c _ hg hb' hc]
+  simp only [hb, hn.scan, hn.valid, hn.finite, if_true, advance_eq s l rest hb, hre]
+  simp [adv, hg']
+
+/-- **estimate round trip** -/
+theorem estimate_roundtrip (ce : Bool) (s : IS) (dest : Lex × Lex) (v e rest : List Char) (hg : s.good = true)
+    (hb : s.buf = estimateOut v e ++ rest)
+    (hv : NumOK v ('+' :: '-' :: (e ++ ')' :: rest))) (he : NumOK e (')' :: rest)) :
+    estimateIn ce dest s = ((v, e), adv s (estimateOut v e) rest) := by
+  have hb1 : s.buf = '(' :: (v ++ '+' :: '-' :: (e ++ ')' :: rest)) := by simp [hb, estimateOut]
+  have h1 := readChar_ok s '\x00' '(' _ hg hb1 (by decide)
+  have h2 := extractFloat_ok (adv s ['('] _) ['?'] v _ (by simpa using hg) rfl hv (by simp)
+  have h3 := expect_ok (adv (adv s ['('] (v ++ '+' :: '-' :: (e ++ ')' :: rest))) v ('+' :: '-' :: (e ++ ')' :: rest))) '+' _ (by simpa using hg) rfl
+  have h4 := expect_ok (adv (adv (adv s ['('] (v ++ '+' :: '-' :: (e ++ ')' :: rest))) v ('+' :: '-' :: (e ++ ')' :: rest))) ['+'] ('-' :: (e ++ ')' :: rest))) '-' _ (by simpa using hg) rfl
+  have h5 := extractFloat_ok (adv (adv (adv (adv s ['('] (v ++ '+' :: '-' :: (e ++ ')' :: rest))) v ('+' :: '-' :: (e ++ ')' :: rest))) ['+'] ('-' :: (e ++ ')' :: rest))) ['-'] (e ++ ')' :: rest)) ['?'] e _ (by simpa using hg) rfl he (by simp)
+  have h6 := expect_ok (adv (adv (adv (adv (adv s ['('] (v ++ '+' :: '-' :: (e ++ ')' :: rest))) v ('+' :: '-' :: (e ++ ')' :: rest))) ['+'] ('-' :: (e ++ ')' :: rest))) ['-'] (e ++ ')' :: rest)) e (')' :: rest)) ')' _ (by simpa using hg) rfl
+  simp [estimateIn, estimateTail, bind, StateT.bind, h1, h2, h3, h4, h5, h6, pure, StateT.pure, get, getThe, MonadStateOf.get, StateT.get, good_not_failed s hg]
+  simp [adv_adv, estimateOut]
+
+theorem adv_nil (s : IS) : adv s [] s.buf = s := by simp [adv]
+section vector
+variable {δ : Type}
+/-- what the vector extractor needs from its element type: the element's own text, followed by a
+separator or the closing parenthesis, reads back as the element and consumes exactly that text -/
+def ElemLaw (elemOut : δ → List Char) (elemIn : δ → M δ) (v : δ) : Prop :=
+  ∀ (s : IS) (old : δ) (rest : List Char), s.good = true → s.buf = elemOut v ++ rest →
+    (∃ c r, rest = c :: r ∧ (c = ',' ∨ c = ')')) → elemIn old s = (v, adv s (elemOut v) rest)
+
+def tailText (elemOut : δ → List Char) (vs : List δ) : List Char := vs.flatMap (fun v => ',' :: elemOut v)
+
+theorem intercalate_cons (x : List Char) (xs : List (List Char)) :
+    intercalate [','] (x :: xs) = x ++ xs.flatMap (fun y => ',' :: y) := by
+  induction xs generalizing x with
+  | nil => simp [intercalate]
+  | cons y ys ih => simp [intercalate, ih]
+
+theorem vectorLoop_ok (elemOut : δ → List Char) (elemIn : δ → M δ) (vs : List δ) (hlaw : ∀ v ∈ vs, ElemLaw elemOut elemIn v) :
+    ∀ (olds done : List δ) (c0 : Char) (s : IS) (rest : List Char), olds.length = vs.length → s.good = true →
+      s.buf = tailText elemOut vs ++ ')' :: rest →
+      vectorLoop elemIn c0 done olds s = ((some (if vs = [] then c0 else ','), done ++ vs), adv s (tailText elemOut vs) (')' :: rest)) := by
+  induction vs with
+  | nil =>
+    intro olds done c0 s rest hl hg hb
+    have : olds = [] := by cases olds <;> simp_all
+    subst this
+    simp [vectorLoop, tailText, pure, StateT.pure] 
+    simp [tailText] at hb
+    rw [← hb, adv_nil]
+  | cons v vs ih =>
+    intro olds done c0 s rest hl hg hb
+    cases olds with
+    | nil => simp at hl
+    | cons o os =>
+      have hb1 : s.buf = ',' :: (elemOut v ++ (tailText elemOut vs ++ ')' :: rest)) := by simp [hb, tailText]
+      have h1 := readChar_ok s c0 ',' _ hg hb1 (by decide)
+      have hdelim : ∃ c r, tailText elemOut vs ++ ')' :: rest = c :: r ∧ (c = ',' ∨ c = ')') := by
+        cases vs with
+        | nil => exact ⟨')', rest, by simp [tailText], Or.inr rfl⟩
+        | cons w ws => exact ⟨',', elemOut w ++ (tailText elemOut ws ++ ')' :: rest), by simp [tailText], Or.inl rfl⟩
+      have h2 := hlaw v (by simp) (adv s [','] (elemOut v ++ (tailText elemOut vs ++ ')' :: rest))) o _ (by simpa using hg) rfl hdelim
+      have h3 := ih (fun w hw => hlaw w (by simp [hw])) os (done ++ [v]) ','
+        (adv (adv s [','] (elemOut v ++ (tailText elemOut vs ++ ')' :: rest))) (elemOut v) (tailText elemOut vs ++ ')' :: rest)) rest
+        (by simpa using hl) (by simpa using hg) rfl
+      simp [vectorLoop, bind, StateT.bind, h1, h2, h3, pure, StateT.pure]
+      simp [adv_adv, tailText]
+end vector
+
+theorem digit_props (c : Char) (h : isDigit c = true) :
+    isSign c = false ∧ (c == '.') = false ∧ (c == 'e') = false ∧ (c == 'E') = false ∧ isSpace c = false := by
+  simp only [isDigit, Bool.and_eq_true, decide_eq_true_eq] at h
+  have h1 : '0'.val ≤ c.val := h.1
+  have h2 : c.val ≤ '9'.val := h.2
+  have key : ∀ d : Char, (d.val < '0'.val ∨ '9'.val < d.val) → (c == d) = false := by
+    intro d hd
+    rw [beq_eq_false_iff_ne]
+    intro hcd; subst hcd
+    rcases hd with hd | hd
+    · exact absurd h1 (by simpa [UInt32.not_le] using hd)
+    · exact absurd h2 (by simpa [UInt32.not_le] using hd)
+  simp only [isSign, isSpace]
+  refine ⟨?_, key '.' (by decide), key 'e' (by decide), key 'E' (by decide), ?_⟩
+  · simp [key '+' (by decide), key '-' (by decide)]
+  · simp [key ' ' (by decide), key '\n' (by decide), key '\t' (by decide), key '\r' (by decide), key '\x0b' (by decide), key '\x0c' (by decide)]
+
+def AllDigits (ds : List Char) : Prop := ∀ c ∈ ds, isDigit c = true
+
+theorem scan_digits (ds : List Char) (hd : AllDigits ds) (hne : ds ≠ []) (rest : List Char) (dec sci mant afterE : Bool) (acc : List Char) :
+    scanBody (ds ++ rest) dec sci mant afterE acc = scanBody rest dec sci true false (ds.reverse ++ acc) := by
+  induction ds generalizing mant afterE acc with
+  | nil => exact absurd rfl hne
+  | cons d ds ih =>
+    have hdd := hd d (by simp)
+    obtain ⟨hs, _, _, _, _⟩ := digit_props d hdd
+    cases ds with
+    | nil => simp [scanBody, hs, hdd]
+    | cons d' ds' =>
+      have := ih (fun c hc => hd c (by simp [hc])) (by simp) true false (d :: acc)
+      simp only [List.cons_append] at this ⊢
+      rw [scanBody]
+      simp only [hs, hdd, Bool.and_false, Bool.false_eq_true, if_false, if_true]
+      rw [this]; simp
+
+def Ends (c : Char) : Prop := isDigit c = false ∧ (c == '.') = false ∧ (c == 'e') = false ∧ (c == 'E') = false
+
+theorem scan_stop (c : Char) (r : List Char) (hc : Ends c) (dec sci mant : Bool) (acc : List Char) :
+    scanBody (c :: r) dec sci mant false acc = (acc, c :: r) := by
+  obtain ⟨h1, h2, h3, h4⟩ := hc
+  simp [scanBody, h1, h2, h3, h4]
+
+/-- the text of a printed number: digits, optionally a point and more digits, optionally an exponent
+with an explicit sign and at least one digit; optionally a leading minus -/
+def mantText (ip fp : List Char) : List Char := ip ++ (if fp = [] then [] else '.' :: fp)
+def expText : Option (Bool × List Char) → List Char
+  | none => []
+  | some (neg, ed) => 'e' :: (if neg then '-' else '+') :: ed
+def printed (neg : Bool) (ip fp : List Char) (ex : Option (Bool × List Char)) : List Char :=
+  (if neg then ['-'] else []) ++ (mantText ip fp ++ expText ex)
+
+structure PrintedOK (ip fp : List Char) (ex : Option (Bool × List Char)) : Prop where
+  ip_ne : ip ≠ []
+  ip_digits : AllDigits ip
+  fp_digits : AllDigits fp
+  ex_ok : ∀ p, ex = some p → p.2 ≠ [] ∧ AllDigits p.2
+
+theorem scan_exp (ex : Option (Bool × List Char)) (hex : ∀ p, ex = some p → p.2 ≠ [] ∧ AllDigits p.2) (c : Char) (r : List Char) (hc : Ends c)
+    (dec : Bool) (acc : List Char) :
+    scanBody (expText ex ++ c :: r) dec false true false acc = ((expText ex).reverse ++ acc, c :: r) := by
+  cases ex with
+  | none => simp [expText, scan_stop c r hc]
+  | some p =>
+    obtain ⟨neg, ed⟩ := p
+    obtain ⟨hne, hd⟩ := hex _ rfl
+    have hsg : isSign (if neg then '-' else '+') = true := by cases neg <;> decide
+    have he : isDigit 'e' = false := by decide
+    have hsd : isDigit (if neg then '-' else '+') = false := by cases neg <;> decide
+    simp only [expText, List.cons_append, scanBody, he, hsg, Bool.false_and, Bool.false_eq_true, if_false,
+      show ('e' == '.') = false by decide, show ('e' == 'e') = true by decide, Bool.true_or, if_true, Bool.not_false, Bool.and_self]
+    rw [scan_digits ed hd hne, scan_stop c r hc]
+    simp
+
+theorem scan_body_printed (ip fp : List Char) (ex : Option (Bool × List Char)) (h : PrintedOK ip fp ex) (c : Char) (r : List Char) (hc : Ends c)
+    (acc : List Char) :
+    scanBody ((mantText ip fp ++ expText ex) ++ c :: r) false false false false acc = ((mantText ip fp ++ expText ex).reverse ++ acc, c :: r) := by
+  by_cases hfp : fp = []
+  · subst hfp
+    simp only [mantText, if_true, List.append_nil, List.append_assoc]
+    rw [scan_digits ip h.ip_digits h.ip_ne, scan_exp ex h.ex_ok c r hc]
+    simp
+  · simp only [mantText, hfp, if_false, List.append_assoc, List.cons_append]
+    rw [scan_digits ip h.ip_digits h.ip_ne]
+    simp only [scanBody, show isDigit '.' = false by decide, show isSign '.' = false by decide, Bool.and_false, Bool.false_and, Bool.false_eq_true, if_false, show ('.' == '.') = true by decide, if_true,
+      Bool.not_false, Bool.and_self]
+    rw [scan_digits fp h.fp_digits hfp, scan_exp ex h.ex_ok c r hc]
+    simp
+
+theorem scanFloat_printed (neg : Bool) (ip fp : List Char) (ex : Option (Bool × List Char)) (h : PrintedOK ip fp ex) (c : Char) (r : List Char)
+    (hc : Ends c) : scanFloat (printed neg ip fp ex ++ c :: r) = (printed neg ip fp ex, c :: r) := by
+  cases neg with
+  | true =>
+    simp only [printed, if_true, List.cons_append, List.nil_append, scanFloat, show isSign '-' = true by decide]
+    rw [scan_body_printed ip fp ex h c r hc]
+    simp
+  | false =>
+    obtain ⟨d, ds, hip⟩ := List.exists_cons_of_ne_nil h.ip_ne
+    have hd : isDigit d = true := h.ip_digits d (by simp [hip])
+    have hs := (digit_props d hd).1
+    have e1 : printed false ip fp ex ++ c :: r = d :: (ds ++ ((if fp = [] then [] else '.' :: fp) ++ expText ex) ++ c :: r) := by
+      simp [printed, mantText, hip]
+    rw [e1]
+    simp only [scanFloat, hs, Bool.false_eq_true, if_false]
+    rw [← e1]
+    simp only [printed, Bool.false_eq_true, if_false, List.nil_append]
+    rw [scan_body_printed ip fp ex h c r hc]
+    simp
+
+theorem validExp_expText (ex : Option (Bool × List Char)) (hex : ∀ p, ex = some p → p.2 ≠ [] ∧ AllDigits p.2) :
+    validExp (expText ex) = true := by
+  cases ex with
+  | none => rfl
+  | some p =>
+    obtain ⟨neg, ed⟩ := p
+    obtain ⟨hne, hd⟩ := hex _ rfl
+    have hall : ed.all isDigit = true := by rw [List.all_eq_true]; exact hd
+    have hemp : ed.isEmpty = false := by cases ed <;> simp_all
+    cases neg <;> simp [expText, validExp, stripSign, hall, hemp, show isSign '-' = true by decide, show isSign '+' = true by decide]
+
+theorem digits_split (ds rest : List Char) (hd : AllDigits ds) (hr : ∀ c r, rest = c :: r → isDigit c = false) :
+    (ds ++ rest).takeWhile isDigit = ds ∧ (ds ++ rest).dropWhile isDigit = rest := by
+  have h0 : rest.takeWhile isDigit = [] ∧ rest.dropWhile isDigit = rest := by
+    cases rest with
+    | nil => simp
+    | cons c r => simp [hr c r rfl]
+  rw [List.takeWhile_append_of_pos hd, List.dropWhile_append_of_pos hd, h0.1, h0.2]; simp
+
+theorem expText_head (ex : Option (Bool × List Char)) : ∀ c r, expText ex = c :: r → isDigit c = false ∧ c ≠ '.' := by
+  intro c r h
+  cases ex with
+  | none => simp [expText] at h
+  | some p => simp [expText] at h; obtain ⟨rfl, _⟩ := h; exact ⟨by decide, by decide⟩
+
+theorem stripSign_printed (neg : Bool) (ip fp : List Char) (ex : Option (Bool × List Char)) (h : PrintedOK ip fp ex) :
+    stripSign (printed neg ip fp ex) = mantText ip fp ++ expText ex := by
+  obtain ⟨d, ds, hip⟩ := List.exists_cons_of_ne_nil h.ip_ne
+  have hd : isDigit d = true := h.ip_digits d (by simp [hip])
+  have hs := (digit_props d hd).1
+  cases neg with
+  | true => simp [printed, stripSign, show isSign '-' = true by decide]
+  | false => simp [printed, stripSign, mantText, hip, hs]
+
+theorem validFloat_printed (neg : Bool) (ip fp : List Char) (ex : Option (Bool × List Char)) (h : PrintedOK ip fp ex) :
+    validFloat (printed neg ip fp ex) = true := by
+  have hipe : ip.isEmpty = false := by
+    have := h.ip_ne; cases ip <;> simp_all
+  unfold validFloat
+  rw [stripSign_printed neg ip fp ex h]
+  by_cases hfp : fp = []
+  · subst hfp
+    obtain ⟨h1, h2⟩ := digits_split ip (expText ex) h.ip_digits (fun c r hc => (expText_head ex c r hc).1)
+    have hv := validExp_expText ex h.ex_ok
+    simp only [mantText, if_true, List.append_nil, validMant, h1, h2]
+    cases hex : expText ex with
+    | nil => simp [hipe, validExp]
+    | cons c r =>
+      have hne := (expText_head ex c r hex).2
+      rw [hex] at hv
+      split
+      · next heq => simp at heq; exact absurd heq.1 hne
+      · simp [hipe, hv]
+  · have e : mantText ip fp ++ expText ex = ip ++ ('.' :: (fp ++ expText ex)) := by simp [mantText, hfp]
+    obtain ⟨h1, h2⟩ := digits_split ip ('.' :: (fp ++ expText ex)) h.ip_digits (fun c r hc => by simp at hc; rw [← hc.1]; decide)
+    obtain ⟨h3, h4⟩ := digits_split fp (expText ex) h.fp_digits (fun c r hc => (expText_head ex c r hc).1)
+    rw [e]
+    simp only [validMant, h1, h2, h3, h4]
+    simp [hipe, validExp_expText ex h.ex_ok]
+
+theorem printed_nonspace (neg : Bool) (ip fp : List Char) (ex : Option (Bool × List Char)) (h : PrintedOK ip fp ex) :
+    ∃ c l', printed neg ip fp ex = c :: l' ∧ isSpace c = false := by
+  obtain ⟨d, ds, hip⟩ := List.exists_cons_of_ne_nil h.ip_ne
+  have hd : isDigit d = true := h.ip_digits d (by simp [hip])
+  cases neg with
+  | true => exact ⟨'-', mantText ip fp ++ expText ex, by simp [printed], by decide⟩
+  | false => exact ⟨d, ds ++ ((if fp = [] then [] else '.' :: fp) ++ expText ex), by simp [printed, mantText, hip], (digit_props d hd).2.2.2.2⟩
+
+/-- **the number leaf**: a text of the printed shape that denotes a finite double is read back whole
+by the model of `num_get`, whatever terminator follows it -/
+theorem printed_numOK (neg : Bool) (ip fp : List Char) (ex : Option (Bool × List Char)) (h : PrintedOK ip fp ex)
+    (hfin : overflows (printed neg ip fp ex) = false) (c : Char) (r : List Char) (hc : Ends c) :
+    NumOK (printed neg ip fp ex) (c :: r) :=
+  ⟨printed_nonspace neg ip fp ex h, scanFloat_printed neg ip fp ex h c r hc, validFloat_printed neg ip fp ex h, hfin⟩
+
+theorem ends_comma : Ends ',' := by unfold Ends; decide
+theorem ends_paren : Ends ')' := by unfold Ends; decide
+theorem ends_plus : Ends '+' := by unfold Ends; decide
+
+section vector
+variable {δ : Type}
+/-- **vector round trip, any number of elements, any element type obeying `ElemLaw`** -/
+theorem vector_roundtrip (elemOut : δ → List Char) (elemIn : δ → M δ) (v0 : δ) (vs : List δ)
+    (hlaw : ∀ v ∈ v0 :: vs, ElemLaw elemOut elemIn v) (olds : List δ) (hl : olds.length = vs.length + 1)
+    (s : IS) (rest : List Char) (hg : s.good = true) (hb : s.buf = vectorOut ((v0 :: vs).map elemOut) ++ rest) :
+    vectorIn elemIn olds s = (v0 :: vs, adv s (vectorOut ((v0 :: vs).map elemOut)) rest) := by
+  cases olds with
+  | nil => simp at hl
+  | cons o os =>
+    have htxt : vectorOut ((v0 :: vs).map elemOut) = '(' :: (elemOut v0 ++ (tailText elemOut vs ++ [')'])) := by
+      simp [vectorOut, intercalate_cons, tailText, List.flatMap_map]
+    have hb1 : s.buf = '(' :: (elemOut v0 ++ (tailText elemOut vs ++ ')' :: rest)) := by rw [hb, htxt]; simp
+    have h1 := readChar_ok s '\x00' '(' _ hg hb1 (by decide)
+    have hdelim : ∃ c r, tailText elemOut vs ++ ')' :: rest = c :: r ∧ (c = ',' ∨ c = ')') := by
+      cases vs with
+      | nil => exact ⟨')', rest, by simp [tailText], Or.inr rfl⟩
+      | cons w ws => exact ⟨',', elemOut w ++ (tailText elemOut ws ++ ')' :: rest), by simp [tailText], Or.inl rfl⟩
+    have h2 := hlaw v0 (by simp) (adv s ['('] (elemOut v0 ++ (tailText elemOut vs ++ ')' :: rest))) o _ (by simpa using hg) rfl hdelim
+    have h3 := vectorLoop_ok elemOut elemIn vs (fun w hw => hlaw w (by simp [hw])) os [v0] '('
+      (adv (adv s ['('] (elemOut v0 ++ (tailText elemOut vs ++ ')' :: rest))) (elemOut v0) (tailText elemOut vs ++ ')' :: rest)) rest
+      (by simpa using hl) (by simpa using hg) rfl
+    have h4 := readChar_ok (adv (adv (adv s ['('] (elemOut v0 ++ (tailText elemOut vs ++ ')' :: rest))) (elemOut v0) (tailText elemOut vs ++ ')' :: rest))
+      (tailText elemOut vs) (')' :: rest)) (if vs = [] then '(' else ',') ')' rest (by simpa using hg) rfl (by decide)
+    simp [vectorIn, bind, StateT.bind, h1, h2, h3, h4, pure, StateT.pure]
+    simp [adv_adv]
+    rw [show vectorOut (elemOut v0 :: List.map elemOut vs) = vectorOut ((v0 :: vs).map elemOut) from rfl, htxt]
+end vector
+
+/-- a number text that is read back whole before every terminator -/
+def Num (l : Lex) : Prop := ∀ c r, Ends c → NumOK l (c :: r)
+
+theorem printed_num (neg : Bool) (ip fp : List Char) (ex : Option (Bool × List Char)) (h : PrintedOK ip fp ex)
+    (hfin : overflows (printed neg ip fp ex) = false) : Num (printed neg ip fp ex) :=
+  fun c r hc => printed_numOK neg ip fp ex h hfin c r hc
+
+theorem elemLaw_float (l : Lex) (h : Num l) : ElemLaw (fun x => x) extractFloat l := by
+  intro s old rest hg hb ⟨c, r, hrest, hc⟩
+  subst hrest
+  have he : Ends c := by rcases hc with rfl | rfl; exact ends_comma; exact ends_paren
+  exact extractFloat_ok s old l (c :: r) hg hb (h c r he) (by simp)
+
+theorem elemLaw_estimate (ce : Bool) (p : Lex × Lex) (hv : Num p.1) (he : Num p.2) :
+    ElemLaw (fun q => estimateOut q.1 q.2) (estimateIn ce) p := by
+  intro s old rest hg hb _
+  exact estimate_roundtrip ce s old p.1 p.2 rest hg hb (hv '+' _ ends_plus) (he ')' _ ends_paren)
+
+/-- **complex round trip** (`std::complex`'s extractor on `(re,im)`) -/
+theorem complex_roundtrip (s : IS) (dest : Lex × Lex) (re im rest : List Char) (hg : s.good = true)
+    (hb : s.buf = complexOut re im ++ rest) (hre : Num re) (him : Num im) :
+    complexIn dest s = ((re, im), adv s (complexOut re im) rest) := by
+  have hb1 : s.buf = '(' :: (re ++ ',' :: (im ++ ')' :: rest)) := by simp [hb, complexOut]
+  have h1 := readChar_ok s '\x00' '(' _ hg hb1 (by decide)
+  have h2 := extractFloat_ok (adv s ['('] (re ++ ',' :: (im ++ ')' :: rest))) ['?'] re (',' :: (im ++ ')' :: rest)) (by simpa using hg) rfl (hre ',' _ ends_comma) (by simp)
+  have h3 := readChar_ok (adv (adv s ['('] (re ++ ',' :: (im ++ ')' :: rest))) re (',' :: (im ++ ')' :: rest))) '(' ',' _ (by simpa using hg) rfl (by decide)
+  have h4 := extractFloat_ok (adv (adv (adv s ['('] (re ++ ',' :: (im ++ ')' :: rest))) re (',' :: (im ++ ')' :: rest))) [','] (im ++ ')' :: rest)) ['?'] im (')' :: rest)
+    (by simpa using hg) rfl (him ')' _ ends_paren) (by simp)
+  have h5 := readChar_ok (adv (adv (adv (adv s ['('] (re ++ ',' :: (im ++ ')' :: rest))) re (',' :: (im ++ ')' :: rest))) [','] (im ++ ')' :: rest)) im (')' :: rest)) ',' ')' _
+    (by simpa using hg) rfl (by decide)
+  simp [complexIn, bind, StateT.bind, h1, h2, h3, h4, h5, pure, StateT.pure, get, getThe, MonadStateOf.get, StateT.get, good_not_failed s hg]
+  simp [adv_adv, complexOut]
+
+theorem elemLaw_complex (p : Lex × Lex) (hre : Num p.1) (him : Num p.2) :
+    ElemLaw (fun q => complexOut q.1 q.2) complexIn p := by
+  intro s old rest hg hb _
+  exact complex_roundtrip s old p.1 p.2 rest hg hb hre him
+
+/-! ### the property's round-trip clauses, for every length and every nesting -/
+/-- `Vector<N,double>` / `Stokes<double>` -/
+theorem roundtrip_vector_double (l0 : Lex) (ls olds : List Lex) (h : ∀ l ∈ l0 :: ls, Num l) (hl : olds.length = ls.length + 1)
+    (rest : List Char) :
+    run (vectorIn extractFloat olds) (vectorOut (l0 :: ls) ++ rest)
+      = (l0 :: ls, adv { buf := vectorOut (l0 :: ls) ++ rest } (vectorOut (l0 :: ls)) rest) := by
+  have := vector_roundtrip (fun x => x) extractFloat l0 ls (fun v hv => elemLaw_float v (h v hv)) olds hl
+    { buf := vectorOut (l0 :: ls) ++ rest } rest rfl (by simp)
+  simpa [run] using this
+
+/-- `Vector<N,Estimate>` / `Stokes<Estimate>` -/
+theorem roundtrip_vector_estimate (ce : Bool) (p0 : Lex × Lex) (ps olds : List (Lex × Lex)) (h : ∀ p ∈ p0 :: ps, Num p.1 ∧ Num p.2)
+    (hl : olds.length = ps.length + 1) (rest : List Char) :
+    run (vectorIn (estimateIn ce) olds) (vectorOut ((p0 :: ps).map (fun q => estimateOut q.1 q.2)) ++ rest)
+      = (p0 :: ps, adv { buf := vectorOut ((p0 :: ps).map (fun q => estimateOut q.1 q.2)) ++ rest }
+          (vectorOut ((p0 :: ps).map (fun q => estimateOut q.1 q.2))) rest) := by
+  have := vector_roundtrip (fun q : Lex × Lex => estimateOut q.1 q.2) (estimateIn ce) p0 ps
+    (fun v hv => elemLaw_estimate ce v (h v hv).1 (h v hv).2) olds hl
+    { buf := vectorOut ((p0 :: ps).map (fun q => estimateOut q.1 q.2)) ++ rest } rest rfl rfl
+  simpa [run] using this
+
+/-- `Vector<N,complex>` -/
+theorem roundtrip_vector_complex (p0 : Lex × Lex) (ps olds : List (Lex × Lex)) (h : ∀ p ∈ p0 :: ps, Num p.1 ∧ Num p.2)
+    (hl : olds.length = ps.length + 1) (rest : List Char) :
+    run (vectorIn complexIn olds) (vectorOut ((p0 :: ps).map (fun q => complexOut q.1 q.2)) ++ rest)
+      = (p0 :: ps, adv { buf := vectorOut ((p0 :: ps).map (fun q => complexOut q.1 q.2)) ++ rest }
+          (vectorOut ((p0 :: ps).map (fun q => complexOut q.1 q.2))) rest) := by
+  have := vector_roundtrip (fun q : Lex × Lex => complexOut q.1 q.2) complexIn p0 ps
+    (fun v hv => elemLaw_complex v (h v hv).1 (h v hv).2) olds hl
+    { buf := vectorOut ((p0 :: ps).map (fun q => complexOut q.1 q.2)) ++ rest } rest rfl rfl
+  simpa [run] using this
+
+/-- a single estimate -/
+theorem roundtrip_estimate (ce : Bool) (dest : Lex × Lex) (v e rest : List Char) (hv : Num v) (he : Num e) :
+    run (estimateIn ce dest) (estimateOut v e ++ rest) = ((v, e), adv { buf := estimateOut v e ++ rest } (estimateOut v e) rest) :=
+  estimate_roundtrip ce { buf := estimateOut v e ++ rest } dest v e rest rfl rfl (hv '+' _ ends_plus) (he ')' _ ends_paren)
+
+/-- after a successful round trip nothing is flagged and exactly the written text was consumed -/
+theorem roundtrip_state (x rest : List Char) :
+    (adv { buf := x ++ rest } x rest).failed = false ∧ (adv { buf := x ++ rest } x rest).eof = false ∧
+    (adv { buf := x ++ rest } x rest).pos = x.length ∧ (adv { buf := x ++ rest } x rest).buf = rest := by
+  simp [adv, IS.failed, IS.pos]
+
+theorem sentry_false_eq (s : IS) : sentry false s = if s.good then (true, s) else (false, { s with fail := true }) := by
+  unfold sentry; cases s.good <;> simp
+
+theorem expect_eq (c : Char) (s : IS) : expect c s =
+    if s.good then
+      (match s.buf with
+       | d :: _ => if d == c then (true, s.advance 1) else (false, { s with fail := true })
+       | [] => (false, { s with eof := true, fail := true }))
+    else (false, { s with fail := true }) := by
+  cases hg : s.good with
+  | false => simp [expect, peek, sentry_false_eq, hg]
+  | true =>
+    cases hb : s.buf with
+    | nil => simp [expect, peek, sentry_false_eq, hg, hb]
+    | cons d r =>
+      by_cases hd : (d == c) = true
+      · simp [expect, peek, getc, sentry_false_eq, hg, hb, hd]
+      · simp [expect, peek, getc, sentry_false_eq, hg, hb, hd]
+
+theorem expect_true_not_failed (c : Char) (s : IS) (h : (expect c s).1 = true) : (expect c s).2.failed = false := by
+  rw [expect_eq] at h ⊢
+  cases hg : s.good with
+  | false => simp [hg] at h
+  | true =>
+    simp only [hg, if_true] at h ⊢
+    cases hb : s.buf with
+    | nil => simp [hb] at h
+    | cons d r =>
+      simp only [hb] at h ⊢
+      by_cases hd : (d == c) = true
+      · simp only [hd, if_true]
+        simp [IS.good] at hg
+        simp [IS.advance, IS.failed, hg]
+      · simp [hd] at h
+
+theorem estimateTail_eq (b : Bool) (dest : Lex × Lex) (s : IS) : estimateTail true b dest s =
+    (let r1 := extractFloat ['?'] s
+     let r2 := expect '+' r1.2
+     if r2.1 = false then (dest, r2.2) else
+     let r3 := expect '-' r2.2
+     if r3.1 = false then (dest, r3.2) else
+     let r4 := extractFloat ['?'] r3.2
+     if r4.2.failed = true then (dest, r4.2) else
+     if b = true then
+       (let r5 := expect ')' r4.2
+        if r5.1 = false then (dest, r5.2) else ((r1.1, r4.1), r5.2))
+     else ((r1.1, r4.1), r4.2)) := by
+  simp only [estimateTail, bind, StateT.bind, pure, StateT.pure, get, getThe, MonadStateOf.get, StateT.get]
+  rcases h1 : extractFloat ['?'] s with ⟨v, s1⟩
+  simp only
+  rcases h2 : expect '+' s1 with ⟨b2, s2⟩
+  cases b2
+  · simp [pure, StateT.pure]
+  simp [bind, pure, StateT.bind, StateT.pure, StateT.get]
+  rcases h3 : expect '-' s2 with ⟨b3, s3⟩
+  cases b3
+  · simp [pure, StateT.pure]
+  simp [bind, pure, StateT.bind, StateT.pure, StateT.get]
+  rcases h4 : extractFloat ['?'] s3 with ⟨e, s4⟩
+  simp [bind, pure, StateT.bind, StateT.pure, StateT.get]
+  cases hf : s4.failed
+  · simp [bind, pure, StateT.bind, StateT.pure, StateT.get]
+    cases b
+    · simp [pure, StateT.pure]
+    · simp [bind, pure, StateT.bind, StateT.pure, StateT.get]
+      rcases h5 : expect ')' s4 with ⟨b5, s5⟩
+      cases b5 <;> simp [pure, StateT.pure]
+  · simp [pure, StateT.pure]
+
+theorem estimateTail_failed_unchanged (b : Bool) (dest : Lex × Lex) (s : IS) (h : (estimateTail true b dest s).2.failed = true) :
+    (estimateTail true b dest s).1 = dest := by
+  rw [estimateTail_eq] at h ⊢
+  simp only at h ⊢
+  split
+  · rfl
+  · next h2 =>
+    rw [if_neg h2] at h
+    split
+    · rfl
+    · next h3 =>
+      rw [if_neg h3] at h
+      split
+      · rfl
+      · next h4 =>
+        rw [if_neg h4] at h
+        cases b with
+        | false => simp at h; exact absurd h h4
+        | true =>
+          simp only [if_true] at h ⊢
+          split
+          · rfl
+          · next h5 =>
+            rw [if_neg h5] at h
+            have := expect_true_not_failed ')' _ (by simpa using h5)
+            simp at h; rw [this] at h; exact absurd h (by simp)
+
+/-- **a failed estimate extraction leaves the destination unchanged**, for every input text and every
+previous state of the stream -/
+theorem estimate_failed_unchanged (dest : Lex × Lex) (s : IS) (h : ((estimateIn true dest) s).2.failed = true) :
+    ((estimateIn true dest) s).1 = dest := by
+  simp only [estimateIn, bind, StateT.bind] at h ⊢
+  exact estimateTail_failed_unchanged _ dest _ h
 theorem current_estimate_checks_error : currentEstimateChecksError = true := rfl
+set_option exponentiation.threshold 1100 in
+/-- before the repair: the unbracketed text `1+-x` fails and overwrites the destination with `(1, 0)` -/
+theorem unrepaired_counterexample :
+    (run (estimateIn false (['7'], ['8'])) "1+-x".toList).2.failed = true ∧
+    (run (estimateIn false (['7'], ['8'])) "1+-x".toList).1 = (['1'], ['0']) := by decide +kernel
+
+/-! ### conventions -/
+/-- **every documented spelling maps to its enumerator** (Circular = 0, Linear = 1, Elliptical = 2),
+whatever the destination held, without setting the fail state; also behind leading white space and
+before further text -/
+theorem documented_basis_spellings (d : Int) :
+    (run (basisIn true d) "lin".toList).1 = 1 ∧ (run (basisIn true d) "Linear".toList).1 = 1 ∧
+    (run (basisIn true d) "cir".toList).1 = 0 ∧ (run (basisIn true d) "circ".toList).1 = 0 ∧ (run (basisIn true d) "Circular".toList).1 = 0 ∧
+    (run (basisIn true d) "ell".toList).1 = 2 ∧ (run (basisIn true d) "Elliptical".toList).1 = 2 ∧
+    (run (basisIn true d) "0".toList).1 = 0 ∧ (run (basisIn true d) "1".toList).1 = 1 ∧ (run (basisIn true d) "2".toList).1 = 2 ∧
+    (run (basisIn true d) " \n\tLinear x".toList).1 = 1 ∧ (run (basisIn true d) " 2 7".toList).1 = 2 := by
+  refine ⟨rfl, rfl, rfl, rfl, rfl, rfl, rfl, rfl, rfl, rfl, rfl, rfl⟩
+theorem documented_basis_spellings_succeed (d : Int) :
+    (run (basisIn true d) "lin".toList).2.failed = false ∧ (run (basisIn true d) "Linear".toList).2.failed = false ∧
+    (run (basisIn true d) "cir".toList).2.failed = false ∧ (run (basisIn true d) "circ".toList).2.failed = false ∧
+    (run (basisIn true d) "Circular".toList).2.failed = false ∧ (run (basisIn true d) "ell".toList).2.failed = false ∧
+    (run (basisIn true d) "Elliptical".toList).2.failed = false ∧ (run (basisIn true d) "0".toList).2.failed = false ∧
+    (run (basisIn true d) "1".toList).2.failed = false ∧ (run (basisIn true d) "2".toList).2.failed = false := by
+  refine ⟨rfl, rfl, rfl, rfl, rfl, rfl, rfl, rfl, rfl, rfl⟩
+/-- what is written for an enumerator reads back as that enumerator -/
+theorem basis_roundtrip (d : Int) :
+    (run (basisIn true d) (basisOut 0)).1 = 0 ∧ (run (basisIn true d) (basisOut 1)).1 = 1 ∧ (run (basisIn true d) (basisOut 2)).1 = 2 := ⟨rfl, rfl, rfl⟩
+theorem sign_roundtrip :
+    run signIn (signOut 1) = (1, { before := "1+".toList, buf := [], eof := true }) ∧
+    run signIn (signOut (-1)) = (-1, { before := "1-".toList, buf := [], eof := true }) ∧
+    (run signIn "1".toList).1 = 1 ∧ (run signIn "1".toList).2.failed = false := ⟨rfl, rfl, rfl, rfl⟩
+
+theorem keywordBasis_range (w : List Char) (b : Nat) (h : keywordBasis w = some b) : b = 0 ∨ b = 1 ∨ b = 2 := by
+  unfold keywordBasis at h
+  split at h
+  · simp at h; omega
+  · split at h
+    · simp at h; omega
+    · split at h
+      · simp at h; omega
+      · simp at h
+
+/-- **a basis extraction that does not set the fail state delivers a valid enumerator**, for every
+input text and every previous destination: an unknown numeric code cannot pass silently -/
+theorem basis_success_valid (d : Int) (s : IS) (h : (basisIn true d s).2.failed = false) :
+    (basisIn true d s).1 = 0 ∨ (basisIn true d s).1 = 1 ∨ (basisIn true d s).1 = 2 := by
+  simp only [basisIn, bind, StateT.bind, pure, StateT.pure, get, getThe, MonadStateOf.get, StateT.get] at h ⊢
+  rcases h1 : tellg s with ⟨p, s1⟩
+  simp only [h1] at h ⊢
+  rcases h2 : extractWord s1 with ⟨w, s2⟩
+  simp only [h2] at h ⊢
+  cases hk : keywordBasis w with
+  | some b =>
+    simp only [hk] at h ⊢
+    have := keywordBasis_range w b hk
+    simp [pure, StateT.pure]; omega
+  | none =>
+    simp only [hk] at h ⊢
+    simp [bind, pure, StateT.bind, StateT.pure, StateT.get] at h ⊢
+    rcases h3 : seekg p s2 with ⟨u, s3⟩
+    simp only [h3] at h ⊢
+    rcases h4 : extractInt ['-', '1'] s3 with ⟨code, s4⟩
+    simp only [h4] at h ⊢
+    cases hf : s4.failed with
+    | true => simp [hf, pure, StateT.pure] at h ⊢; 
+    | false =>
+      simp [hf] at h ⊢
+      by_cases hc : (lexToInt code = 0 ∨ lexToInt code = 1) ∨ lexToInt code = 2
+      · simp [hc, pure, StateT.pure]; omega
+      · simp [hc, bind, pure, StateT.bind, StateT.pure, modify, modifyGet, MonadStateOf.modifyGet, StateT.modifyGet, IS.failed] at h
+
+/-- **a hand / argument extraction that does not set the fail state delivers `+1` or `-1`** -/
+theorem sign_success_valid (s : IS) (h : (signIn s).2.failed = false) : (signIn s).1 = 1 ∨ (signIn s).1 = -1 := by
+  simp only [signIn, bind, StateT.bind, pure, StateT.pure] at h ⊢
+  rcases h1 : extractInt zeroLex s with ⟨code, s1⟩
+  simp only [h1] at h ⊢
+  by_cases hk : (lexToInt code).natAbs = 1
+  · simp [hk, pure, StateT.pure]; omega
+  · simp [hk, bind, pure, StateT.bind, StateT.pure, modify, modifyGet, MonadStateOf.modifyGet, StateT.modifyGet, IS.failed] at h
+
+/-! ### the fail state is sticky, and structural characters are required -/
+theorem sentry_sticky (b : Bool) (s : IS) (h : s.failed = true) : (sentry b s).1 = false ∧ (sentry b s).2.failed = true := by
+  have hg : s.good = false := by
+    simp [IS.failed] at h; simp [IS.good]; rcases h with h | h <;> simp [h]
+  simp [sentry, hg, IS.failed]
+theorem readChar_sticky (old : Char) (s : IS) (h : s.failed = true) : readChar old s = (old, { s with fail := true }) := by
+  have hg : s.good = false := by
+    simp [IS.failed] at h; simp [IS.good]; rcases h with h | h <;> simp [h]
+  simp [readChar, sentry, hg]
+theorem extractFloat_sticky (old : Lex) (s : IS) (h : s.failed = true) : extractFloat old s = (old, { s with fail := true }) := by
+  have hg : s.good = false := by
+    simp [IS.failed] at h; simp [IS.good]; rcases h with h | h <;> simp [h]
+  simp [extractFloat, sentry, hg]
+theorem expect_sticky (c : Char) (s : IS) (h : s.failed = true) : (expect c s).1 = false ∧ (expect c s).2.failed = true := by
+  have hg : s.good = false := by
+    simp [IS.failed] at h; simp [IS.good]; rcases h with h | h <;> simp [h]
+  rw [expect_eq]; simp [hg, IS.failed]
+
+/-- a vector whose first non-blank character is not `(` sets the fail state and leaves every element -/
+theorem vector_requires_open {δ : Type} (elemIn : δ → M δ) (dest : List δ) (s : IS) (c : Char) (r : List Char)
+    (hg : s.good = true) (hb : s.buf = c :: r) (hs : isSpace c = false) (hc : c ≠ '(') :
+    (vectorIn elemIn dest s).1 = dest ∧ (vectorIn elemIn dest s).2.failed = true := by
+  have h1 := readChar_ok s '\x00' c r hg hb hs
+  simp [vectorIn, bind, StateT.bind, h1, hc, pure, StateT.pure, modify, modifyGet, MonadStateOf.modifyGet, StateT.modifyGet, IS.failed, adv]
+/-- an empty or all-blank text sets the fail state of every extractor built on `is >> c` -/
+theorem vector_requires_text {δ : Type} (elemIn : δ → M δ) (dest : List δ) (s : IS) (hg : s.good = true)
+    (hb : ∀ c ∈ s.buf, isSpace c = true) :
+    (vectorIn elemIn dest s).1 = dest ∧ (vectorIn elemIn dest s).2.failed = true := by
+  have htw : ∀ l : List Char, (∀ c ∈ l, isSpace c = true) → l.takeWhile isSpace = l := by
+    intro l; induction l with
+    | nil => intro _; rfl
+    | cons a t ih => intro hl; simp [hl a (by simp), ih (fun c hc => hl c (by simp [hc]))]
+  have htw := htw s.buf hb
+  have h1 : readChar '\x00' s = ('\x00', { s.advance s.buf.length with eof := true, fail := true }) := by
+    simp [readChar, sentry, hg, htw, IS.advance]
+  simp [vectorIn, bind, StateT.bind, h1, pure, StateT.pure, modify, modifyGet, MonadStateOf.modifyGet, StateT.modifyGet, IS.failed]
+
+/-! ### non-vacuity: a concrete printed number, and complete round trips evaluated on concrete text -/
+theorem printedOK_example : PrintedOK "1".toList "5".toList (some (false, "20".toList)) :=
+  ⟨by decide, by unfold AllDigits; decide, by unfold AllDigits; decide, by intro p hp; cases hp; exact ⟨by decide, by unfold AllDigits; decide⟩⟩
+set_option exponentiation.threshold 1100 in
+theorem num_example : Num "-1.5e+20".toList := by
+  have := printed_num true "1".toList "5".toList (some (false, "20".toList)) printedOK_example (by decide +kernel)
+  simpa [printed, mantText, expText] using this
+set_option exponentiation.threshold 1100 in
+example : (run (vectorIn (estimateIn true) [(['7'], ['8']), (['7'], ['8'])]) "((1+-2),(-1.5e+20+-0.25))".toList).1
+    = [("1".toList, "2".toList), ("-1.5e+20".toList, "0.25".toList)] := by decide +kernel
+set_option exponentiation.threshold 1100 in
+example : (run (vectorIn complexIn [(['7'], ['8'])]) "((3,4))".toList).1 = [("3".toList, "4".toList)] := by decide +kernel
+
 end Epsic.C19
